@@ -280,7 +280,7 @@ class SimulatorBase(
             for k, cr in step_result._classical_data.channel_records.items():
                 if k not in records:
                     records[k] = []
-                records[k].append([cr])
+                records[k].append([[c] for c in cr])
 
         def pad_evenly(results: Sequence[Sequence[Sequence[int]]]):
             largest = max(len(result) for result in results)
